@@ -59,8 +59,16 @@ def _pins(ctx):
         lin.sort(key=rank)
         n0, a0 = lin[0]
         if ctx.vars.get(n0, {}).get('kind') == 'int' and (len(lin) > 1):
-            # integer variable in terms of others: only if coefficient divides; skip
-            continue
+            # all-integer relation: eliminate a variable with coefficient +-1 (stays integer valued)
+            if not all(ctx.vars.get(n, {}).get('kind') == 'int' and float(a).is_integer() for n, a in lin):
+                continue
+            c0 = d.t.get(((), ()), 0j)
+            if c0.imag != 0 or not float(c0.real).is_integer():
+                continue
+            unit = [(n, a) for n, a in lin if abs(a) == 1]
+            if not unit:
+                continue
+            n0, a0 = unit[0]
         rest = d - SNum({(((n0, 1),), ()): complex(a0)})
         pins.append((n0, rest * (-1.0 / a0)))
     return pins
@@ -258,6 +266,43 @@ def _viol_formula(enc, items, tol):
     return z3.Or(out) if len(out) > 1 else out[0]
 
 
+def _subst_cond(c, pins):
+    if isinstance(c, bool) or not pins:
+        return c
+    k = c[0]
+    if k == 'cmp':
+        d = c[2]
+        for n, e in pins:
+            d = d.substitute_expr(n, e)
+        if d.is_const():
+            v = d.const_value()
+            op = c[1]
+            return {'lt': v.real < 0, 'le': v.real <= 0, 'eq': v == 0, 'ne': v != 0}[op]
+        return ('cmp', c[1], d)
+    if k in ('and', 'or'):
+        a, b = _subst_cond(c[1], pins), _subst_cond(c[2], pins)
+        from .cond import c_and, c_or
+
+        return c_and(a, b) if k == 'and' else c_or(a, b)
+    if k == 'not':
+        from .cond import c_not
+
+        return c_not(_subst_cond(c[1], pins))
+    return c
+
+
+def _pc_conds(ctx, pins):
+    """path condition + atom definitions; conditions other than the pin equalities themselves are
+    rewritten with the pins so that angle atoms of pinned variables coincide"""
+    out = []
+    for c in list(ctx.pc) + list(ctx.atom_defs):
+        out.append(c)
+        c2 = _subst_cond(c, pins)
+        if c2 is not c and not (isinstance(c2, bool) and c2):
+            out.append(c2)
+    return out
+
+
 def _has_trig(ctx, sn):
     for s_ in sn:
         for (_m, ang) in s_.t:
@@ -268,12 +313,12 @@ def _has_trig(ctx, sn):
     return False
 
 
-def _query(ctx, mode, L, items, tol, sn):
+def _query(ctx, mode, L, items, tol, sn, pcs=None):
     enc = Encoder(ctx, mode, L)
     if mode == 'lattice':
         enc.prepare(sn)
     s = _base_solver(ctx, enc, ctx.opts.get('vc_timeout_ms', 30000))
-    for c in list(ctx.pc) + list(ctx.atom_defs):
+    for c in (pcs if pcs is not None else list(ctx.pc) + list(ctx.atom_defs)):
         s.add(enc.cond(c))
     s.add(_viol_formula(enc, items, tol))
     for sc in enc.side:
@@ -293,11 +338,12 @@ def _exact_stages(ctx, items, tol, label, rec, proof_first=False):
     for it in items:
         if it[0] == 'cond':
             c_snums(it[1], sn)
-    for c in list(ctx.pc) + list(ctx.atom_defs):
+    pcs = _pc_conds(ctx, _pins(ctx))
+    for c in pcs:
         c_snums(c, sn)
     if not _has_trig(ctx, sn):
         # no abstraction involved: one exact query decides
-        r, s = _query(ctx, 'over', 0, items, tol, sn)
+        r, s = _query(ctx, 'over', 0, items, tol, sn, pcs)
         if r == z3.unsat:
             st.vcs_exact += 1
             rec['stage'] = 'exact-unsat'
@@ -310,7 +356,7 @@ def _exact_stages(ctx, items, tol, label, rec, proof_first=False):
         raise Inconclusive(f'{label}: exact VC unknown')
 
     def proof():
-        r, s = _query(ctx, 'over', 0, items, tol, sn)
+        r, s = _query(ctx, 'over', 0, items, tol, sn, pcs)
         if r == z3.unsat:
             st.vcs_exact += 1
             rec['stage'] = 'exact-nra-unsat'
@@ -320,7 +366,7 @@ def _exact_stages(ctx, items, tol, label, rec, proof_first=False):
 
     def search():
         for L in ctx.opts.get('lattices', (4, 6)):
-            r, s = _query(ctx, 'lattice', L, items, tol, sn)
+            r, s = _query(ctx, 'lattice', L, items, tol, sn, pcs)
             if r == z3.sat:
                 model = _model_to_inputs(ctx, s.model())
                 rec['stage'] = f'lattice-{L}-sat'
